@@ -227,7 +227,18 @@ def build_ref(r, layout=0, secret=False):
     m = Model()
     m.fpr = ppub.fingerprint.hex().upper()
     fmt = 'old' if layout & 1 else 'new'
-    trust = wire.build_packet(12, b'\x00\x03', fmt) if layout & 2 else b''
+    # trust packets as keyring files hold them: RFC 4880 5.10 leaves their content to the implementation (GnuPG 1.4 / 2.0 write 2 octets,
+    # GnuPG >= 2.1 writes 12 octets after keys and user ids and 6 after signatures)
+    class _Trust(object):
+        n = 0
+
+        def __radd__(self, other):
+            if not layout & 2:
+                return other
+            _Trust.n += 1
+            size = [2, 12, 6, 12, 2, 6][(_Trust.n + len(r['uids'])) % 6] if layout & 8 or layout & 4 else 2
+            return other + wire.build_packet(12, (b'\x00\x03' + bytes(range(10)))[:size], fmt)
+    trust = _Trust()
     out = bytearray()
     nsec = [len(r['uids']) + 2 * len(r['uas'])]      # where the rotation of protection forms starts depends on the recipe
 
